@@ -211,6 +211,18 @@ func Emit(progs []*sdl.Program) string {
 			typeNames = append(typeNames, t.Name)
 		}
 	}
+	decos := map[string]bool{}
+	for _, p := range progs {
+		for _, pr := range p.Procs {
+			for _, ru := range pr.Rules {
+				if sdl.IsDeco(ru.SubType) && !decos[ru.SubType] {
+					decos[ru.SubType] = true
+					base := sdl.DecoBase(ru.SubType)
+					fmt.Fprintf(&b, "// %sDeco decorates a %s: all methods are the component's own.\ntype %sDeco struct{ *%s }\n\n", base, base, base, base)
+				}
+			}
+		}
+	}
 	b.WriteString("\n// Ifaces maps generated interface names to their types.\nvar Ifaces = map[string]reflect.Type{\n")
 	for _, p := range progs {
 		for k := 0; k < p.NIfaces; k++ {
@@ -225,6 +237,9 @@ func Emit(progs []*sdl.Program) string {
 			continue
 		}
 		fmt.Fprintf(&b, "\t%q: reflect.TypeOf((*%s)(nil)).Elem(),\n", n, typeRef(n))
+	}
+	for _, n := range sdl.SortedKeys(decos) {
+		fmt.Fprintf(&b, "\t%q: reflect.TypeOf((*%sDeco)(nil)).Elem(),\n", n, sdl.DecoBase(n))
 	}
 	b.WriteString("}\n")
 	return b.String()
